@@ -124,6 +124,9 @@ where
                             }
                             Err((mut event, err)) => {
                                 event.ingest = ProcessorStatus::Failed(err);
+                                // Never prune a log on behalf of an operation which failed
+                                // validation (forged headers can claim any author).
+                                event.skip_log_prune();
                                 #[cfg(p2panda_p2panda_verif)]
                                 p2panda_core::verif::emit(format!(
                                     "pipeline.ingest {} {:?}",
